@@ -32,6 +32,19 @@ CONST_ITEMS = [("lightning/src/ln/msgs.rs", "MAX_VALUE_MSAT")]
 MAXV = 21_000_000 * 100_000_000 * 1000
 
 
+def _cleanup_eval(ctx):
+    """scratch files of this process' coq_eval calls (their names carry the pid so that two
+    concurrent runs of the same check do not overwrite each other's shards)"""
+    d = os.path.join(ctx.tmp, "coq")
+    tag = "_%d_" % os.getpid()
+    try:
+        for f in os.listdir(d):
+            if tag in f:
+                os.remove(os.path.join(d, f))
+    except OSError:
+        pass
+
+
 def generate(ctx):
     text, meta = consts_lite.extract(core.REPO, CONST_ITEMS, FEATURES)
     core.write_if_changed(os.path.join(core.COQ, "Gen", "ConstsC04.v"), text)
@@ -242,7 +255,7 @@ def secret_tier(ctx, model_ok):
                 ch = cmds[i:i + 25]
                 exprs.append("run_scmds %s [%s]" % (coq_bytes(key), "; ".join(c.coq() for c in ch)))
                 owners.append((ch, res[i:i + 25]))
-        vals = ctx.coq_eval("corr_secret", ["LdkV.Prim.U64", "LdkV.Crypto.Bytes", "LdkV.Model.InboundSecret", "LdkV.Model.InboundSecretExec"],
+        vals = ctx.coq_eval("corr_secret_%d" % os.getpid(), ["LdkV.Prim.U64", "LdkV.Crypto.Bytes", "LdkV.Model.InboundSecret", "LdkV.Model.InboundSecretExec"],
                             exprs, shards=min(16, len(exprs)), timeout=1500)
         for (ch, res), v in zip(owners, vals):
             ms = [s.replace('""', '"') for s in re.findall(r'"((?:[^"]|"")*)"', v)]
@@ -478,7 +491,7 @@ def mpp_tier(ctx, model_ok):
     ctx.coverage["mpp_commands"] = nsteps
     ctx.coverage["mpp_mode_histogram"] = hist
     if model_ok and exprs:
-        vals = ctx.coq_eval("corr_mpp", ["LdkV.Prim.U64", "LdkV.Gen.Consts", "LdkV.Model.Inbound"], exprs, shards=min(16, len(exprs)), timeout=900)
+        vals = ctx.coq_eval("corr_mpp_%d" % os.getpid(), ["LdkV.Prim.U64", "LdkV.Gen.Consts", "LdkV.Model.Inbound"], exprs, shards=min(16, len(exprs)), timeout=900)
         for (lines, info, recs, ops), v in zip(keep, vals):
             model = json.loads(v.replace(";", ","))
             mi = 0
@@ -562,6 +575,7 @@ def run(ctx):
         ctx.violation("C04 no longer shown: " + ("proof" if not proved else "model/implementation correspondence") + " broken",
                       {"broken": broken, "search": "implementation judges over %d secret cases and %d MPP commands found no failing input"
                        % (ctx.coverage.get("secret_cases", 0), ctx.coverage.get("mpp_commands", 0))}, False)
+    _cleanup_eval(ctx)
     ctx.write_evidence(LEVEL)
 
 
